@@ -588,6 +588,47 @@ theorem ep_close_releases_once (s : St) (e : Nat) :
 example : ((run init [.goc 0 false 1000 (some 0) none 0 .ok, .track 0 1, .close 0]).trk 0).kdel = [2, 3] := by
   decide
 
+/-- **Concurrent first packets cause a single dial.**  In every interleaving of any number of
+`GetOrCreate` calls for one key (fast path under the read lock, creation mutex, re-check, dial,
+publish — each a critical section of the real code; fault-free window) at most one transport dial
+happens, and once the endpoint is published exactly one has happened. -/
+theorem ep_single_dial (s : EPC.St) (hr : EPC.Reachable s) :
+    s.dials ≤ 1 ∧ (s.pool = true → s.dials = 1) := by
+  have hI := EPC.inv_reachable hr
+  have hc := hI.count
+  have hpd : EPC.pendingDial s ≤ 1 := by
+    unfold EPC.pendingDial; split
+    · split <;> omega
+    · omega
+  by_cases hp : s.pool = true
+  · have h0 : EPC.pendingDial s = 0 := by
+      unfold EPC.pendingDial
+      cases hl : s.lock with
+      | none => rfl
+      | some t => simp [hI.excl hp t hl]
+    rw [h0, hp] at hc
+    exact ⟨by simp at hc; omega, fun _ => by simpa using hc⟩
+  · have hp' : s.pool = false := by simpa using hp
+    rw [hp'] at hc
+    exact ⟨by simp at hc; omega, fun h => by rw [hp'] at h; cases h⟩
+
+/-- three concurrent callers, the slowest interleaving: all miss the fast path before anyone dials -/
+def exFirstPackets : List EPC.Act :=
+  [.spawn, .spawn, .spawn, .step 0, .step 1, .step 2, .step 1, .step 1, .step 1, .step 1, .step 0,
+   .step 0, .step 2, .step 2]
+
+example : ∃ s, EPC.Reachable s ∧ s.n = 3 ∧ s.pool = true ∧ s.dials = 1 := by
+  cases h : EPC.run EPC.init exFirstPackets with
+  | none => exact absurd h (by decide)
+  | some s =>
+    refine ⟨s, EPC.reachable_of_run _ EPC.init s EPC.Reachable.init h, ?_, ?_, ?_⟩
+    · have : (EPC.run EPC.init exFirstPackets).map (·.n) = some 3 := by decide
+      rw [h] at this; simpa using this
+    · have : (EPC.run EPC.init exFirstPackets).map (·.pool) = some true := by decide
+      rw [h] at this; simpa using this
+    · have : (EPC.run EPC.init exFirstPackets).map (·.dials) = some 1 := by decide
+      rw [h] at this; simpa using this
+
 end EndpointPool
 
 end DaeVerif.C13.Props
